@@ -45,6 +45,14 @@ func (g *gen) word() string {
 
 func (g *gen) str() string {
 	q := g.pick("'", "\"", "`")
+	if g.set.o.EscapedStringExt && g.r.IntN(6) == 0 {
+		// PostgreSQL escape string: backslash escapes are valid inside E'…'
+		body := ""
+		for i := g.r.IntN(4); i > 0; i-- {
+			body += g.pick("ab", `\'`, `\\`, ";", "''", "--", "\n", `\n`)
+		}
+		return g.pick("E", "e") + "'" + body + "'"
+	}
 	body := ""
 	for i := g.r.IntN(4); i > 0; i-- {
 		switch g.r.IntN(7) {
